@@ -1,7 +1,7 @@
 SPECIFICATION Spec
 CONSTANTS
   RouteFirst = {"-", "own.addr", "own.alias", "own.noport", "miss.port", "miss.host", "other.listener", "hop1", "hop2.tcp", "hop3.tls", "hop4.name"}
-  RouteRest = {"hop1", "hop2.tcp", "hop4.name"}
+  RouteRest = {"hop1", "hop2.tcp", "hop4.name", "own.addr", "own.alias", "own.noport", "miss.port"}
   MaxRoute = 4
   ViaLens = {1}
   RRLens = {0}
